@@ -472,10 +472,12 @@ func (v *VM) exec() {
 			a := v.stack[len(v.stack)-2]
 			b := v.stack[len(v.stack)-1]
 			v.stack = v.stack[:len(v.stack)-2]
-			if b.t.base() == TypeSlice {
-				copy(a.data(), b.data())
-			} else {
-				copy(a.data(), b.convert(TypeSlice).data())
+			if b.t.base() != TypeSlice {
+				b = b.convert(TypeSlice)
+			}
+			n := copy(a.data(), b.data())
+			if codes[v.frame.N].C != 0 {
+				v.stack = append(v.stack, Int(n))
 			}
 
 		case codePass:
